@@ -118,6 +118,12 @@ Theorem C17_returned_is_stored : forall T (N : NumOps T) k c d,
   let '(c', o) := cr_step N k c (Data d) in o = OData (d_status (r_diag (c_report (cr_chk c')))).
 Proof. exact @returned_is_stored_rate. Qed.
 
+(* earlier heartbeats change nothing: neither the monitor nor the report *)
+Theorem C17_early_heartbeat_changes_nothing : forall T (N : NumOps T) k c t,
+  snd (rm_timeout N (cr_mon c) t) = false -> cr_step N k c (Heartbeat t) = (c, OBeat true).
+Proof. exact @early_heartbeat_changes_nothing. Qed.
+Print Assumptions C17_early_heartbeat_changes_nothing.
+
 Theorem C17_heartbeat_alive_iff_no_timeout : forall T (N : NumOps T) k c t,
   snd (cr_step N k c (Heartbeat t)) = OBeat (negb (snd (rm_timeout N (cr_mon c) t))).
 Proof. exact @heartbeat_alive_iff. Qed.
